@@ -255,4 +255,403 @@ def r_relational(p):
     return {"violates": bool(probs), "a": p["a"], "b": p["b"], "scores_a": repr(sa), "scores_b": repr(sb), "problems": probs[:4]}
 
 
-HANDLERS = {"relational": r_relational, "c09": r_c09, "macrovector4": r_macrovector4, "c07_single": r_c07_single, "c07_pair": r_c07_pair, "c07_foreign": r_c07_foreign}
+def classify(version, s):
+    """grammar oracle for a string: 'ok', 'malformed' (syntactic fault) or 'mandatory'"""
+    from spec import grammar
+
+    g = grammar.GRAMMARS[version]
+    if grammar.is_valid(version, s):
+        return "ok"
+    parts = s.split("/")
+    if version != 2:
+        if parts[0] not in g["prefixes"] or len(parts) < 2:
+            return "malformed"
+        parts = parts[1:]
+    table = dict(g["metrics"])
+    seen = set()
+    for f in parts:
+        kv = f.split(":")
+        if len(kv) != 2 or kv[0] not in table or kv[1] not in table[kv[0]] or kv[0] in seen:
+            return "malformed"
+        seen.add(kv[0])
+    return "mandatory"
+
+
+def observe(version, s):
+    import cvss
+    from cvss import exceptions as X
+
+    cls = _cls(version)
+    n = "CVSS%d" % version
+    try:
+        o = cls(s)
+    except getattr(X, n + "MalformedError"):
+        return "malformed", None
+    except getattr(X, n + "MandatoryError"):
+        return "mandatory", None
+    except Exception as e:  # noqa: BLE001
+        return "foreign:%s" % type(e).__name__, None
+    return "ok", o
+
+
+def complete(version, fields, head=None):
+    """prepend the version prefix and append the mandatory metrics that are missing"""
+    from spec import grammar
+
+    g = grammar.GRAMMARS[version]
+    have = {f.split(":")[0] for f in fields if ":" in f}
+    extra = [m + ":" + grammar.legal(g, m)[0] for m in g["mandatory"] if m not in have]
+    body = list(fields) + extra
+    if head is None:
+        head = {2: None, 3: "CVSS:3.1", 4: "CVSS:4.0"}[version]
+    return "/".join(([head] if head is not None else []) + body)
+
+
+def probe(version, strings):
+    probs = []
+    for s in strings:
+        want = classify(version, s)
+        got, o = observe(version, s)
+        if got != want:
+            probs.append("%r: library %s, grammar %s" % (s, got, want))
+        elif got == "ok":
+            from spec import grammar
+
+            m, minor = grammar.parse(version, s)
+            nd = "ND" if version == 2 else "X"
+            defined = {k: v for k, v in m.items() if v != nd}
+            body = o.clean_vector()
+            if version != 2:
+                body = body.split("/", 1)[1] if "/" in body else ""
+            got_fields = dict(f.split(":") for f in body.split("/") if f)
+            if got_fields != defined:
+                probs.append("%r accepted but cleaned vector %r does not list its defined metrics" % (s, o.clean_vector()))
+    return probs
+
+
+def r_parse_step(p):
+    from spec import grammar
+
+    version = p["version"]
+    g = grammar.GRAMMARS[version]
+    st, f = p["state_fields"], p["field"]
+    strings = [complete(version, st + [f])]
+    met = f.split(":")[0] if ":" in f else None
+    if met in dict(g["metrics"]):
+        for v in grammar.legal(g, met):
+            strings.append(complete(version, st + [f, met + ":" + v]))
+            strings.append(complete(version, [met + ":" + v] + st + [f]))
+    strings.append(complete(version, [f] + st))
+    probs = probe(version, strings)
+    return {"violates": bool(probs), "probes": len(strings), "problems": probs[:5]}
+
+
+def r_parse_pre(p):
+    probs = probe(p["version"], [p["vector"]])
+    return {"violates": bool(probs), "vector": p["vector"], "problems": probs}
+
+
+def r_mandatory(p):
+    version = p["version"]
+    head = {2: None, 3: "CVSS:3.1", 4: "CVSS:4.0"}[version]
+    s = "/".join(([head] if head else []) + p["fields"])
+    probs = probe(version, [s])
+    return {"violates": bool(probs), "vector": s, "problems": probs}
+
+
+def r_parse_comm(p):
+    version = p["version"]
+    st, a, b = p["state_fields"], p["a"], p["b"]
+    s1 = complete(version, st + [a, b])
+    s2 = complete(version, st + [b, a])
+    probs = probe(version, [s1, s2])
+    g1, o1 = observe(version, s1)
+    g2, o2 = observe(version, s2)
+    if g1 != g2:
+        probs.append("order matters: %r -> %s, %r -> %s" % (s1, g1, s2, g2))
+    elif g1 == "ok" and (repr(o1.scores()) != repr(o2.scores()) or o1.clean_vector() != o2.clean_vector() or not (o1 == o2)):
+        probs.append("order changes outputs: %r vs %r" % (s1, s2))
+    return {"violates": bool(probs), "a": s1, "b": s2, "problems": probs[:4]}
+
+
+def r_c15(p):
+    from spec import grammar
+
+    version = p["version"]
+    vec = p["vector"]
+    cls = _cls(version)
+    o = cls(vec)
+    g = grammar.GRAMMARS[version]
+    m, minor = grammar.parse(version, vec)
+    nd = "ND" if version == 2 else "X"
+    probs = []
+
+    def want(met):
+        v = m.get(met)
+        if v is None or v == nd:
+            if version == 3 and met.startswith("M"):
+                return m[met[1:]]
+            return nd
+        return v
+
+    for acc, group in (("temporal_vector", g["temporal"]), ("environmental_vector", g["environmental"])):
+        got = getattr(o, acc)()
+        exp = "/".join(k + ":" + want(k) for k in group)
+        if got != exp:
+            probs.append("%s() = %r, expected %r" % (acc, got, exp))
+    head = "" if version == 2 else vec.split("/")[0] + "/"
+    re = head + "/".join(k + ":" + m[k] for k in g["mandatory"]) + "/" + o.temporal_vector() + "/" + o.environmental_vector()
+    try:
+        o2 = cls(re)
+        if repr(o2.scores()) != repr(o.scores()):
+            probs.append("scores of re-assembled %r are %r, original %r" % (re, o2.scores(), o.scores()))
+    except Exception as e:  # noqa: BLE001
+        probs.append("re-assembled vector %r raises %s" % (re, type(e).__name__))
+    return {"violates": bool(probs), "vector": vec, "problems": probs[:4]}
+
+
+def r_c12(p):
+    import cvss
+    from cvss import exceptions as X
+
+    version = p["version"]
+    vec = p["vector"]
+    cls = _cls(version)
+    n = "CVSS%d" % version
+    o = cls(vec)
+    probs = []
+    rh = o.rh_vector()
+    base = o.scores()[0]
+    if rh != ("%.1f" % base) + "/" + o.clean_vector() or wellformed(base, False):
+        probs.append("rh_vector() = %r for base score %r and cleaned vector %r" % (rh, base, o.clean_vector()))
+    try:
+        if not (cls.from_rh_vector(rh) == o):
+            probs.append("from_rh_vector(rh_vector()) != x")
+    except Exception as e:  # noqa: BLE001
+        probs.append("from_rh_vector(%r) raises %s" % (rh, type(e).__name__))
+    if "score_text" in p:
+        t = p["score_text"]
+        s = t + "/" + o.clean_vector()
+        try:
+            f = float(t)
+            want = "ok" if f == base else "mismatch"
+        except ValueError:
+            want = "malformed"
+        try:
+            r = cls.from_rh_vector(s)
+            got = "ok" if r == o else "ok-but-different-object"
+        except getattr(X, n + "RHMalformedError"):
+            got = "malformed"
+        except getattr(X, n + "RHScoreDoesNotMatch"):
+            got = "mismatch"
+        except Exception as e:  # noqa: BLE001
+            got = "foreign:%s" % type(e).__name__
+        if got != want:
+            probs.append("from_rh_vector(%r): library %s, expected %s (base score %r)" % (s, got, want, base))
+    return {"violates": bool(probs), "vector": vec, "problems": probs[:4]}
+
+
+def r_c12_raw(p):
+    from cvss import exceptions as X
+
+    version = p["version"]
+    cls = _cls(version)
+    n = "CVSS%d" % version
+    try:
+        cls.from_rh_vector(p["text"])
+        got = "accepted"
+    except getattr(X, n + "RHMalformedError"):
+        got = "malformed"
+    except Exception as e:  # noqa: BLE001
+        got = "other:%s" % type(e).__name__
+    return {"violates": got != "malformed", "text": p["text"], "library": got}
+
+
+def r_c18(p):
+    import copy
+
+    version = p["version"]
+    cls = _cls(version)
+    o = cls(p["vector"])
+    probs = []
+    calls = [("scores", {}), ("severities", {}), ("clean_vector", {}), ("rh_vector", {})]
+    if version != 2:
+        calls.append(("clean_vector", {"output_prefix": False}))
+    if version in (2, 3):
+        calls += [("temporal_vector", {}), ("environmental_vector", {})]
+    for s in (False, True):
+        for mn in (False, True):
+            calls.append(("as_json", {"sort": s, "minimal": mn}))
+    calls.append(("__hash__", {}))
+    first = {}
+    for rnd in range(3):
+        for name, kw in calls:
+            before = copy.deepcopy(vars(o))
+            try:
+                r = getattr(o, name)(**kw)
+            except Exception as e:  # noqa: BLE001
+                probs.append("%s raises %s" % (name, type(e).__name__))
+                continue
+            if repr(before) != repr(vars(o)):
+                probs.append("%s%r changes the instance state" % (name, kw))
+            key = (name, tuple(sorted(kw.items())))
+            if key in first and repr(first[key]) != repr(r):
+                probs.append("%s%r returns %r, earlier %r" % (name, kw, r, first[key]))
+            first.setdefault(key, copy.deepcopy(r))
+            if isinstance(r, dict):
+                r["vectorString"] = "tampered"
+                r.clear()
+    try:
+        if not (o == o):
+            probs.append("x != x")
+    except Exception as e:  # noqa: BLE001
+        probs.append("== raises %s" % type(e).__name__)
+    return {"violates": bool(probs), "vector": p["vector"], "problems": probs[:5]}
+
+
+def _official_pattern(version, minor):
+    import json, os
+
+    sv = {2: "2.0", 3: "3.%s" % minor, 4: "4.0"}[version]
+    fn = {"2.0": "cvss-v2.0.json", "3.0": "cvss-v3.0.json", "3.1": "cvss-v3.1.json", "4.0": "cvss-v4.0.json"}[sv]
+    here = os.path.dirname(os.path.dirname(os.path.abspath(__file__)))
+    with open(os.path.join(here, "spec", "schemas", fn)) as f:
+        return sv, json.load(f)
+
+
+def r_c08(p):
+    import re
+
+    version = p["version"]
+    vec = p["vector"]
+    cls = _cls(version)
+    o = cls(vec)
+    minor = vec.split("/")[0][-1] if version == 3 else None
+    sv, schema = _official_pattern(version, minor)
+    pat = schema["properties"]["vectorString"]["pattern"]
+    probs = []
+    key = None
+    for nm, s in (("clean_vector", o.clean_vector()), ("rh_vector", o.rh_vector().split("/", 1)[1])):
+        try:
+            cls(s)
+        except Exception as e:  # noqa: BLE001
+            probs.append("%s() = %r is rejected by the library's own parser (%s)" % (nm, s, type(e).__name__))
+        if re.search(pat, s) is None:
+            probs.append("%s() = %r does not match the official pattern" % (nm, s))
+            key = key or "v%d.%s.official-pattern" % (version, nm)
+    res = {"violates": bool(probs), "vector": vec, "problems": probs[:4]}
+    if key and p.get("finding_key") and all("official pattern" in x for x in probs):
+        res["finding_key"] = p["finding_key"] if p["finding_key"].split(".")[1] in [x.split("(")[0] for x in probs] else key
+    return res
+
+
+def r_c10(p):
+    import json
+
+    from spec import grammar, schema_concrete
+
+    version = p["version"]
+    vec = p["vector"]
+    cls = _cls(version)
+    if "abstract_score" in p and version == 4:
+        pass
+    o = cls(vec)
+    minor = vec.split("/")[0][-1] if version == 3 else None
+    sv, schema = _official_pattern(version, minor)
+    data = json.loads(json.dumps(o.as_json(sort=p["sort"], minimal=p["minimal"])))
+    pre = "v%s.as_json" % sv
+    fails = schema_concrete.failing_parts(schema, data, pre)
+    keys = []
+    for f in fails:
+        k = f
+        if f.endswith(".pattern"):
+            # is it only the field order of the input?
+            m, _ = grammar.parse(version, vec) if grammar.is_valid(version, vec) else ({}, None)
+            canon = ([vec.split("/")[0]] if version != 2 else []) + [a + ":" + m[a] for a, _ in grammar.GRAMMARS[version]["metrics"] if a in m]
+            d2 = dict(data)
+            d2["vectorString"] = "/".join(canon)
+            if "/".join(canon) != vec and not [x for x in schema_concrete.failing_parts(schema, d2, pre) if x.endswith(".pattern")]:
+                k = f + ".noncanonical-input-order"
+        if ".allOf[" in f or ".anyOf[" in f:
+            d2 = dict(data)
+            for sk in ("baseSeverity", "threatSeverity", "environmentalSeverity"):
+                if isinstance(d2.get(sk), str):
+                    d2[sk] = d2[sk].upper()
+            if f not in schema_concrete.failing_parts(schema, d2, pre):
+                k = f + ".case"
+        keys.append(k)
+    want = p.get("part")
+    hit = want in keys
+    res = {"violates": hit or (bool(keys) and want is None), "vector": vec, "options": [p["sort"], p["minimal"]], "failing_parts": keys[:8]}
+    if hit:
+        res["finding_key"] = want
+    elif keys:
+        # a different part fails for this input than the one the solver pointed at
+        res["violates"] = True
+        res["finding_key"] = keys[0]
+    return res
+
+
+def r_c11(p):
+    from spec import grammar, json_names as JN
+
+    version = p["version"]
+    vec = p["vector"]
+    cls = _cls(version)
+    o = cls(vec)
+    m, minor = grammar.parse(version, vec)
+    nd = "ND" if version == 2 else "X"
+    g = grammar.GRAMMARS[version]
+    probs = []
+    sc, sv = o.scores(), o.severities()
+    outs = {}
+    for sort in (False, True):
+        for minimal in (False, True):
+            js = o.as_json(sort=sort, minimal=minimal)
+            outs[(sort, minimal)] = js
+            opt = "as_json(sort=%s,minimal=%s)" % (sort, minimal)
+            okv = ["3.%s" % minor] if version == 3 else JN.VERSION_FIELD[version]
+            if js.get("version") not in okv:
+                probs.append("%s version %r" % (opt, js.get("version")))
+            if js.get("vectorString") != vec:
+                probs.append("%s vectorString %r" % (opt, js.get("vectorString")))
+            if "baseScore" not in js:
+                probs.append("%s lacks baseScore" % opt)
+            for i, (sk, vk) in enumerate(JN.SCORE_KEYS[version]):
+                if sk in js and sc[i] is not None and repr(js[sk]) != repr(sc[i]):
+                    probs.append("%s %s=%r, score %r" % (opt, sk, js[sk], sc[i]))
+                if vk and vk in js and str(js[vk]).upper() != str(sv[i]).upper():
+                    probs.append("%s %s=%r, rating %r" % (opt, vk, js[vk], sv[i]))
+            for met, _ in g["metrics"]:
+                keys, names = JN.TABLES[version][met]
+                v = m.get(met)
+                if v is None or v == nd:
+                    if met.startswith("M") and version in (3, 4) and met[1:] in m:
+                        want = names.get(m[met[1:]], [])
+                    else:
+                        want = [JN.ND]
+                else:
+                    want = names[v]
+                pk = [k for k in keys if k in js]
+                grp = "base" if met in g["mandatory"] else ("temporal" if met in g.get("temporal", []) else "environmental")
+                must = grp == "base" or version == 4 or not minimal
+                if not must:
+                    lst = g[grp]
+                    must = any(m.get(x) not in (None, nd) for x in lst)
+                if must and not pk:
+                    probs.append("%s lacks the field of %s" % (opt, met))
+                for k in pk:
+                    if js[k] not in want:
+                        probs.append("%s %s=%r, effective value of %s is named %r" % (opt, k, js[k], met, want))
+    for minimal in (False, True):
+        a, b = outs[(False, minimal)], outs[(True, minimal)]
+        if dict(a) != dict(b) or list(b.keys()) != sorted(b.keys()):
+            probs.append("sort=True changes items or is not ascending")
+    for sort in (False, True):
+        full, mini = outs[(sort, False)], outs[(sort, True)]
+        if any(k not in full or full[k] != mini[k] for k in mini):
+            probs.append("minimal output is not a subset of the full output")
+    return {"violates": bool(probs), "vector": vec, "problems": probs[:5]}
+
+
+HANDLERS = {"c08": r_c08, "c10": r_c10, "c11": r_c11, "c15": r_c15, "c12": r_c12, "c12_raw": r_c12_raw, "c18": r_c18, "parse_step": r_parse_step, "parse_pre": r_parse_pre, "mandatory": r_mandatory, "parse_comm": r_parse_comm, "relational": r_relational, "c09": r_c09, "macrovector4": r_macrovector4, "c07_single": r_c07_single, "c07_pair": r_c07_pair, "c07_foreign": r_c07_foreign}
